@@ -39,6 +39,10 @@ CliChecks(e) ==
            THEN Flag(OutMatches(x.out, e.out), "C13_output_is_not_the_authenticated_prefix")
            ELSE Flag(OutMatches(x.out, e.out), "C13_output_created_or_clobbered_by_failed_command"))
      \cup Flag(e.exit = 0 => e.named = x.named, "C12_sender_not_named_correctly")
+     \* C10 at the tool: an I/O failure (output cannot be written, reader gone, input cannot be read) is never a success
+     \cup Flag(c.cause \in (OutputCauses \cup InputCauses) => (e.exit = 1 /\ e.errline), "C10_io_failure_not_reported_as_an_error_by_the_tool")
+     \* C04 at the tool: decryption reports success only for a complete authentic message completely delivered
+     \cup Flag((c.cmd \in {"decrypt", "pass_decrypt"} /\ c.cause # "none") => e.exit # 0, "C04_tool_reports_success_without_a_verified_and_delivered_final_chunk")
      \* C05 at the tool: whoever is reported is the holder of the authenticated key, never another keyring entry
      \cup Flag(e.exit = 0 => e.named \notin {"wrong_name", "wrong_unknown"}, "C05_tool_reports_a_sender_other_than_the_authenticated_key")
 
